@@ -362,15 +362,21 @@ def cases(tier):
 def ambiguous_start(text):
     """a line whose first token is '^...', '(' or '-' continues the previous line's expression (by design of the grammar);
     combinations of rewrites that create such a line are not generated"""
+    return ambiguous_starts(text) > 0
+
+
+def ambiguous_starts(text):
+    """number of lines that continue the previous line's expression"""
     prev_open = False
+    n = 0
     for ln in text.split("\n"):
         st = ln.strip()
         if st[:1] in ("^", "(", "-") and prev_open:
-            return True
+            n += 1
         code = st.split(";")[0].strip()
         if code:
             prev_open = not code.endswith((":", "{", "}"))
-    return False
+    return n
 
 
 def outcome_key(o):
@@ -438,7 +444,7 @@ def check(case, r, tier):
                     continue
                 hi, lo = (a, b) if a[1] > b[1] else (b, a)
                 new = render(apply(apply(toks, hi), lo))
-                if ambiguous_start(new) and not ambiguous_start(text):
+                if ambiguous_starts(new) > ambiguous_starts(text):
                     continue
                 compare(r, base, new, new, {"k": "text", "base": text, "text": new, "fam": "%s+%s" % (lo[0], hi[0]), "ctx": ctxj}, "%s+%s" % (lo[0], hi[0]))
         else:
@@ -449,6 +455,9 @@ def check(case, r, tier):
                     if mask >> b & 1:
                         chosen |= set(f.split("+"))
                 new = render(apply_everywhere(toks, chosen, variant_pick=mask))
+                if ambiguous_starts(new) > ambiguous_starts(text):
+                    r.extra["combinations_skipped_as_line_merging"] += 1
+                    continue
                 compare(r, base, new, new, {"k": "text", "base": text, "text": new, "fam": "+".join(sorted(chosen)), "ctx": ctxj}, "+".join(sorted(chosen)))
         return
     if k == "practice":
